@@ -401,6 +401,25 @@ def disjoint_spec(draw, nk="int", degrees=(1,), center=(0.0, 0.0), R=None, bound
     k = draw(st.integers(2, 3))
     slots = draw(st.permutations(SLOTS4))[:k]
     parts = []
+    if bounded and draw(st.integers(0, 3)) == 0:
+        # "bullseye": a frame and, inside its hole, a smaller frame or blob
+        # (four levels of nesting: outer curve, hole, island, hole of the island)
+        snap = draw(snapper(nk))
+        outer = draw(star_curve(nk, center, 0.8 * R, R, (3, 8), degrees, False, snap, container=True))
+        rho = 0.62 * 0.8 * R
+        hole = draw(star_curve(nk, center, 0.7 * rho, 0.95 * rho, (3, 7), degrees, True, snap, container=True))
+        rho2 = 0.62 * 0.7 * rho
+        isl = draw(star_curve(nk, center, 0.6 * rho2, 0.95 * rho2, (3, 7), degrees, False, snap, container=True))
+        parts = [{"k": "connected", "curves": [outer, hole]}]
+        if draw(st.booleans()) and nk not in ("int", "mixed"):
+            rho3 = 0.62 * 0.6 * rho2
+            ihole = draw(star_curve(nk, center, 0.4 * rho3, 0.9 * rho3, (3, 5), degrees, True, snap))
+            parts.append({"k": "connected", "curves": [isl, ihole]})
+        else:
+            parts.append({"k": "simple", "curve": isl})
+        spec = {"k": "disjoint", "parts": parts}
+        assume(_valid(spec))
+        return spec
     if bounded:
         for (sx, sy) in slots:
             pc = (center[0] + sx * R, center[1] + sy * R)
